@@ -22,18 +22,23 @@ import (
 func VerifC01_ConstructedSubscriber() {
 	n := 3 + verif_Tier()
 	local := verif_Choose("localMask", 0, 1)
-	adl := int64(verif_Choose("adsDepthLimit", 0, 2))       // 0 = unlimited
+	adl := int64(verif_Choose("adsDepthLimit", 0, 2))      // 0 = unlimited
 	fsd := int64(verif_Choose("firstSyncDepth", 0, 3)) - 1 // -1 (treated as 0), 0 = unlimited, 1, 2
-	seg := []int64{-1, 1, 2}[verif_Choose("segmentDepthLimit", 0, 2)]
+	seg := []int64{-1, 1, 2, 3}[verif_Choose("segmentDepthLimit", 0, 3)]
 	announced := verif_Bool("announced")
 	w := newFullStack(n, local, -1, 16)
 	defer w.restore()
 	chain := w.chain
 
 	var log []cid.Cid
+	// the application cannot process one of the advertisements (-1: all are fine)
+	failAt := verif_Choose("hookFailsAtBlock", 0, n) - 1
 	prev := MakeGeneralBlockHook(func(c cid.Cid) (cid.Cid, error) {
 		for i, x := range chain {
 			if x == c {
+				if i == failAt {
+					return cid.Undef, errors.New("application cannot process this advertisement")
+				}
 				if i+1 < len(chain) {
 					return chain[i+1], nil
 				}
@@ -53,7 +58,38 @@ func VerifC01_ConstructedSubscriber() {
 	if s == nil {
 		return
 	}
+	depth := adl
+	if fsd > 0 {
+		depth = fsd // first sync of this publisher
+	}
+	want := n
+	if depth > 0 && int(depth) < n {
+		want = int(depth)
+	}
 	evch, _ := s.OnSyncFinished()
+	// (documented: the failure signal works in segmented syncs only, and a sync whose
+	// depth limit does not exceed the segment size is not segmented)
+	segmented := seg > 0 && (depth <= 0 || depth > seg)
+	if segmented && failAt >= 0 && failAt < want {
+		// the hook signals failure for a block of the requested segment: the sync
+		// fails, whatever later hook calls of the same segment report (C04).
+		// (Documented: without segmented sync, calls on SegmentSyncActions have no effect.)
+		if announced {
+			verif_Assert(s.Announce(context.Background(), chain[0], w.pinfo) == nil, "the announcement is accepted")
+			ev := <-evch
+			verif_Assert(ev.Err != nil && ev.Cid == chain[0], "a sync whose hook signalled failure is notified as failed")
+		} else {
+			_, serr := s.SyncAdChain(context.Background(), w.pinfo)
+			verif_Assert(serr != nil, "a sync whose hook signalled failure returns the error")
+		}
+		verif_Reach("failed")
+		verif_Assert(s.GetLatestSync(w.pinfo.ID) == nil, "a failed sync records no latest-synced advertisement")
+		verif_Assert(s.Close() == nil, "Close succeeds")
+		for e := range evch {
+			verif_Assert(e.Err != nil, "no success notification for a failed sync")
+		}
+		return
+	}
 	if announced {
 		verif_Assert(s.Announce(context.Background(), chain[0], w.pinfo) == nil, "the announcement is accepted")
 	} else {
@@ -63,14 +99,6 @@ func VerifC01_ConstructedSubscriber() {
 	ev := <-evch // (a missing notification is reported as a hang)
 	verif_Reach("notified")
 
-	depth := adl
-	if fsd > 0 {
-		depth = fsd // first sync of this publisher
-	}
-	want := n
-	if depth > 0 && int(depth) < n {
-		want = int(depth)
-	}
 	verif_Assert(ev.Err == nil && ev.Cid == chain[0] && ev.PeerID == w.pinfo.ID, "the notification names head and publisher")
 	verif_Assert(ev.Count == want, "the notification counts the blocks the configured limits allow")
 	verif_Assert(len(log) == want, "the hook is called once per block within the configured limits, whatever the segment size")
